@@ -285,26 +285,34 @@ func Check(c *Case, r *mon.R) {
 		}
 		// pruning
 		cand := order
-		if len(cand) > 24 {
+		if len(cand) > 60 {
 			cand = nil
-			for k := 0; k < 24; k++ {
+			for k := 0; k < 40; k++ {
 				cand = append(cand, order[rng.Intn(len(order))])
 			}
 		}
 		for _, cut := range cand {
 			seen := map[*RNode]bool{}
+			var twice *RNode
 			o := mon.Walk(st, func(n parser.Node) bool {
 				if IsNilNode(n) {
 					return false
 				}
 				rn := find(n)
 				if rn != nil {
+					if seen[rn] && twice == nil {
+						twice = rn
+					}
 					seen[rn] = true
 				}
 				return rn != cut
 			})
 			if o.Anomalous() {
 				r.Violation("", "Walk of statement %d of %q with a visitor returning false at the %s: %s", si, src, cut.TypeName, o.String())
+				return
+			}
+			if twice != nil {
+				r.Violation("", "Walk of statement %d of %q with the visitor returning false at the %s at %v visits the %s at %v twice", si, src, cut.TypeName, cut.Node.Span(), twice.TypeName, twice.Node.Span())
 				return
 			}
 			for _, n := range order {
@@ -354,6 +362,7 @@ func Check(c *Case, r *mon.R) {
 					return nil
 				}
 				seen := map[*RNode]bool{}
+				dup := ""
 				o := mon.Walk(st2, func(n parser.Node) bool {
 					if IsNilNode(n) {
 						return false
@@ -362,9 +371,16 @@ func Check(c *Case, r *mon.R) {
 					if rn == nil {
 						return true
 					}
+					if seen[rn] && dup == "" {
+						dup = fmt.Sprintf("the %s at %v", rn.TypeName, rn.Node.Span())
+					}
 					seen[rn] = true
 					return rn.TypeName != ty
 				})
+				if dup != "" {
+					r.Violation("", "first Walk of statement %d of %q with a visitor returning false at every %s visits %s twice", si, src, ty, dup)
+					return
+				}
 				if o.Anomalous() {
 					r.Violation("", "first Walk of statement %d of %q with a visitor returning false at every %s: %s", si, src, ty, o.String())
 					return
